@@ -266,6 +266,8 @@ func externalWrites(name string, nargs int) []int {
 		return []int{1}
 	case "crypto/subtle.XORBytes":
 		return []int{0}
+	case "invoke (hash.Hash).Write", "invoke (hash.Hash).Reset", "invoke (io.Writer).Write":
+		return []int{0} // the running state of the hash / writer object
 	case "invoke (crypto/cipher.AEAD).Open", "invoke (crypto/cipher.AEAD).Seal":
 		return []int{1} // dst: the result is appended to it, and overwritten from dst[len:] on
 	}
